@@ -44,5 +44,5 @@ def v1TopFields : List (String × String × String × String) := [
 /-- assignments inside Translate(): (target struct, target field, source field of the v1 package) -/
 def translateFlows : List (String × String × String) := [("SQL", "Engine", "Engine"), ("SQL", "Schema", "Schema"), ("SQL", "Queries", "Queries"), ("SQLGo", "EmitInterface", "EmitInterface"), ("SQLGo", "EmitJSONTags", "EmitJSONTags"), ("SQLGo", "EmitDBTags", "EmitDBTags"), ("SQLGo", "EmitPreparedQueries", "EmitPreparedQueries"), ("SQLGo", "EmitExactTableNames", "EmitExactTableNames"), ("SQLGo", "EmitEmptySlices", "EmitEmptySlices"), ("SQLGo", "Package", "Name"), ("SQLGo", "Out", "Path"), ("SQLGo", "Overrides", "Overrides"), ("SQLGo", "JSONTagsCaseStyle", "JSONTagsCaseStyle")]
 def translateTopFlows : List (String × String × String) := [("GenGo", "Overrides", "Overrides"), ("GenGo", "Rename", "Rename")]
-def combineFlows : List String := ["cs.Rename <- conf.Gen.Go.Rename", "cs.Overrides <- append(cs.Overrides, conf.Gen.Go.Overrides)", "cs.Rename <- conf.Gen.Kotlin.Rename", "cs.Overrides <- append(cs.Overrides, pkg.Gen.Go.Overrides)", "cs.Rename <- mergeRename(cs.Rename, pkg.Gen.Go.Rename)", "cs.Overrides <- append(cs.Overrides, pkg.Gen.Python.Overrides)"]
+def combineFlows : List String := ["cs.Rename <- conf.Gen.Go.Rename", "cs.Overrides <- append(cs.Overrides, conf.Gen.Go.Overrides)", "cs.Rename <- conf.Gen.Kotlin.Rename", "cs.Overrides <- append(cs.Overrides, pkg.Gen.Go.Overrides)", "cs.Overrides <- append(cs.Overrides, pkg.Gen.Python.Overrides)"]
 end Sqlc.Gen
